@@ -321,11 +321,23 @@ def gen_case(rng, family, kind, shape_name, shape):
     callers = []
     for _ in range(n_callers):
         circuits, params = [], []
+        ptypes = []
         for _ in range(rng.choice([1, 1, 2, 3, 4]) if rng.random() < 0.97 else 0):
             f = set(fresh)
-            circuits.append(gen_classical_gates(rng, n, f, n_params) if family == "classical" else gen_random_gates(rng, n, n_params))
-            params.append([rng.randint(-2, 3) for _ in range(n_params)] if family == "classical" else [rng.uniform(-PI, PI) for _ in range(n_params)])
-        callers.append({"circuits": circuits, "params": params})
+            r = rng.random()
+            npi = 0 if r < 0.25 else n_params      # a parameter-free circuit: its parameter vector is [] or ()
+            if r < 0.07:
+                circuits.append([])                  # a gate-free circuit (len(circuit) == 0)
+            else:
+                circuits.append(gen_classical_gates(rng, n, f, npi) if family == "classical" else gen_random_gates(rng, n, npi))
+            params.append([rng.randint(-2, 3) for _ in range(npi)] if family == "classical" else [rng.uniform(-PI, PI) for _ in range(npi)])
+            ptypes.append(rng.choice(["list", "tuple"] + (["numpy", "numpy"] if npi else [])))
+        cl = {"circuits": circuits, "params": params, "ptypes": ptypes}
+        if rng.random() < 0.35:
+            cl["repeat"] = rng.choice([2, 3])        # the same list object is evaluated again: values repeat, the list is untouched
+        if rng.random() < 0.15:
+            cl["container"] = "tuple"
+        callers.append(cl)
     case = {"family": family, "kind": kind, "n": n, "n_params": n_params, "init": init, "callers": callers,
             "stack_name": shape_name, "stack": gen_stack(rng, n, shape)}
     if kind == "est":
@@ -365,6 +377,17 @@ def cfg(case, ci):
     d = {k: case.get(k) for k in ("kind", "objective", "alpha", "shots")}
     d.update(case["callers"][ci].get("cfg", {}))
     return d
+
+
+def param_container(values, kind):
+    """The parameter vector as the caller hands it over: list, tuple or numpy array (all are list[float]-like)."""
+    if kind == "tuple":
+        return tuple(values)
+    if kind == "numpy":
+        import numpy
+
+        return numpy.array(values, dtype=float)
+    return list(values)
 
 
 def angle_values(case, params):
@@ -414,6 +437,7 @@ def run_impl(case, timeout=90.0):
         ce_module.measure_quasi_distributions = recording
     ce_module.measure_quasi_distributions.sink = quasi_sums
     thread_of = {}
+    repeat_mismatch, mutated = {}, {}
 
     sampler = kind != "est"
     raw = exactprims.ExactSampler(mode=case["sampler_mode"], observer=observer) if sampler else exactprims.ExactEstimator(observer=observer)
@@ -437,12 +461,24 @@ def run_impl(case, timeout=90.0):
         try:
             ev = make_evaluator(ci)
             cl = case["callers"][ci]
-            circuits = [build_circuit(n, g, npar, name=f"c{ci}_{i}", metadata={"caller": ci}) for i, g in enumerate(cl["circuits"])]
-            values = [angle_values(case, p) for p in cl["params"]]
+            circuits = [build_circuit(n, g, len(p), name=f"c{ci}_{i}", metadata={"caller": ci}) for i, (g, p) in enumerate(zip(cl["circuits"], cl["params"]))]
+            values = [param_container(angle_values(case, p), t) for p, t in zip(cl["params"], cl.get("ptypes") or ["list"] * len(cl["params"]))]
+            originals = list(circuits)
+            if cl.get("container") == "tuple":
+                circuits = tuple(circuits)
             thread_of[ci] = threading.get_ident()
             barrier.wait(timeout=30)
-            out = ev.evaluate_circuits(circuits, values)
-            results[ci] = [float(x) for x in out]
+            outs = []
+            for _ in range(cl.get("repeat", 1)):
+                out = ev.evaluate_circuits(circuits, values)
+                outs.append([float(x) for x in out])
+            results[ci] = outs[0]
+            later = [(r, o) for r, o in enumerate(outs) if len(o) != len(outs[0]) or any(abs(a - b) > 1e-12 for a, b in zip(o, outs[0]))]
+            if later:
+                repeat_mismatch[ci] = {"call": later[0][0] + 1, "first_call": outs[0], "that_call": later[0][1]}
+            if len(circuits) != len(originals) or any(a is not b for a, b in zip(circuits, originals)):
+                mutated[ci] = {"length_before": len(originals), "length_after": len(circuits),
+                               "replaced_positions": [i for i, (a, b) in enumerate(zip(circuits, originals)) if a is not b]}
         except Exception as e:  # turned into a violation by the caller
             results[ci] = ("EXC", type(e).__name__, str(e)[:300])
 
@@ -458,7 +494,7 @@ def run_impl(case, timeout=90.0):
             if t.is_alive():
                 results[ci] = ("EXC", "Hang", f"evaluate_circuits did not return within {timeout}s")
     ce_module.measure_quasi_distributions.sink = None
-    extra = {"pub_shots": pub_shots, "quasi_sums": {ci: quasi_sums.get(t, []) for ci, t in thread_of.items()}}
+    extra = {"repeat_mismatch": repeat_mismatch, "mutated": mutated, "pub_shots": pub_shots, "quasi_sums": {ci: quasi_sums.get(t, []) for ci, t in thread_of.items()}}
     return results, batches, extra
 
 
@@ -474,7 +510,7 @@ def oracle_values(case, ci):
     init = build_circuit(n, case["init"], 0) if case["init"] is not None else None
     out = []
     for gates, params in zip(cl["circuits"], cl["params"]):
-        qc = build_circuit(n, gates, npar).assign_parameters(angle_values(case, params))
+        qc = build_circuit(n, gates, len(params)).assign_parameters(angle_values(case, params))
         full = init.compose(qc) if init is not None else qc
         sv = Statevector(full)
         if kind == "est":
@@ -599,7 +635,7 @@ def g_case(case, ci, batches, expected, legacy=False):
         kind = f"KBits {g_list(g_q(Fraction(x)) for x in me['objective']['table'])} {g_q(Fraction(me['alpha']))} {g_z(me['shots'])}"
     init = g_opt(g_circ(n, case["init"]) if case["init"] is not None else None)
     exp = f"(Ok {g_list(g_q(x) for x in expected)})" if not (isinstance(expected, tuple)) else f'(Err "{expected[1]}"%string)'
-    return (f"mkcase ({kind}) {g_nat(case['n_params'])} {init} {g_list(g_circ(n, g) for g in cl['circuits'])} {g_list(g_params(p) for p in cl['params'])} "
+    return (f"mkcase ({kind}) {init} {g_list(g_circ(n, g) for g in cl['circuits'])} {g_list(g_params(p) for p in cl['params'])} "
             f"{g_list(layers)} {g_bool(legacy)} {exp}")
 
 
@@ -645,6 +681,15 @@ def do_case(ctx, case, want_gallina=True):
                           f"through {case['stack_name']} the distribution caller {c} aggregates sums to {bad[0]!r}, not 1 (shots requested {cfg(case, c)['shots']}; "
                           f"callers' shots: {[cfg(case, k)['shots'] for k in range(len(case['callers']))]})", describe(case, c, 0), detail={"sums": sums})
             break
+    for ci, m in extra["repeat_mismatch"].items():
+        ctx.violation("oracle", f"{cfg(case, ci)['kind']}:repeated-call",
+                      f"call {m['call']} of evaluate_circuits on the SAME circuit list returned {m['that_call']}, the first call returned {m['first_call']} "
+                      f"(initial state {'given' if case['init'] is not None else 'absent'}): the objective of a circuit does not depend on how often it was evaluated",
+                      describe(case, ci, 0), detail=m)
+    for ci, m in extra["mutated"].items():
+        ctx.violation("oracle", f"{cfg(case, ci)['kind']}:caller-list-mutated",
+                      f"evaluate_circuits replaced elements of the caller's circuit list (positions {m['replaced_positions']}); a later evaluation of that list prepares a different state",
+                      describe(case, ci, 0), detail=m)
     for ci, res in enumerate(results):
         cl = case["callers"][ci]
         kind_ci = cfg(case, ci)["kind"]
@@ -658,7 +703,9 @@ def do_case(ctx, case, want_gallina=True):
             continue
         want = oracle_values(case, ci)
         if len(res) != len(want):
-            ctx.violation("oracle", f"{case['kind']}:{case['stack_name']}:length", f"{len(res)} values returned for {len(want)} circuits", describe(case, ci, 0),
+            ctx.violation("oracle", f"{kind_ci}:{case['stack_name']}:length",
+                          f"{len(res)} values returned for {len(want)} submitted circuits (parameter vectors {[(t, len(p)) for t, p in zip(cl.get('ptypes', []), cl['params'])]}, "
+                          f"gate counts {[len(g) for g in cl['circuits']]}): one value per circuit, position by position", describe(case, ci, 0),
                           detail={"returned": res, "objective": [w for w, _ in want]})
             continue
         for pos, (got, (w, tol)) in enumerate(zip(res, want)):
@@ -792,6 +839,15 @@ def run(ctx):
             ctx.tally("multi-caller-sampler:" + ("different-shots-per-caller" if len(shots_set) > 1 else "same-shots"))
             if len({cfg(case, k)["kind"] for k in range(len(case["callers"]))}) > 1:
                 ctx.tally("multi-caller-sampler:mixed-evaluator-kinds")
+        for cl in case["callers"]:
+            for g, p_, t in zip(cl["circuits"], cl["params"], cl.get("ptypes") or []):
+                ctx.tally("paramvector:" + ("empty-" if not p_ else "") + t)
+                if not g:
+                    ctx.tally("circuit:gate-free")
+            if cl.get("repeat", 1) > 1:
+                ctx.tally("same-list-evaluated-again:" + ("with-initial-state" if case["init"] is not None else "no-initial-state"))
+            if cl.get("container") == "tuple":
+                ctx.tally("circuits-given-as-tuple")
         if "alpha" in case:
             ctx.tally("alpha:" + case["alpha"])
         if "op" in case["objective"]:
